@@ -16,9 +16,11 @@ Inductive op :=
 | OpPlus (b o : nat)                                       (* builders[b] = builders[b] + builders[o] *)
 | OpSink (b t : nat)                                       (* builders[b].add_task(T[t], predecessors=builders[b].output_tasks) *)
 | OpCopy (b : nat)                                         (* builders[b] = WorkflowBuilder(Workflow(builders[b])) *)
-| OpCtx (b : nat).                                         (* insert_context(builders[b], ctx) *)
+| OpCtx (b : nat)                                          (* insert_context(builders[b], ctx) *)
+| OpWPlus (b o : nat)
+| OpSinkTo (b t : nat).                                    (* builders[b].add_task(T[t], predecessors=[x for x in builders[b].output_tasks if x is not T[t]]) *)                                     (* builders[b] = WorkflowBuilder(Workflow(builders[b]) + Workflow(builders[o])) *)
 
-Definition dummy_task : task := mkTask 1%positive 0 1%positive [] false.
+Definition dummy_task : task := mkTask 1%positive 1%positive 1%positive [] false.
 
 Fixpoint setb {X} (n : nat) (x : X) (l : list X) : list X :=
   match n, l with
@@ -33,25 +35,30 @@ Section Ops.
   Definition tk (i : nat) : task := nth i tasks dummy_task.
   Definition getb (st : list tgraph) (b : nat) : tgraph := nth b st g_empty.
 
-  Definition step (st : list tgraph) (o : op) : list tgraph * bool :=
+  (* state: the builders and the next unused object identity *)
+  Definition step (st : list tgraph * positive) (o : op) : list tgraph * positive * bool :=
+    let (bs, next) := st in
     match o with
-    | OpAdd b t ps => (setb b (add_task (getb st b) (tk t) (map tk ps)) st, true)
-    | OpReplace b t n => (setb b (replace_task (getb st b) (tk t) (tk n)) st, true)
+    | OpAdd b t ps => (setb b (add_task (getb bs b) (tk t) (map tk ps)) bs, next, true)
+    | OpReplace b t n => (setb b (replace_task (getb bs b) (tk t) (tk n)) bs, next, true)
     | OpInsert b o ps aswf =>
-        let other := if aswf then workflow_of (getb st o) else getb st o in
-        let (g', ok) := insert_workflow (getb st b) other (option_map (map tk) ps) in
-        (setb b g' st, ok)
-    | OpPlus b o => (setb b (builder_plus (getb st b) (getb st o)) st, true)
-    | OpSink b t => let g := getb st b in (setb b (add_task g (tk t) (output_tasks g)) st, true)
-    | OpCopy b => (setb b (workflow_of (workflow_of (getb st b))) st, true)
-    | OpCtx b => (setb b (insert_context (getb st b) ctx) st, true)
+        let other := if aswf then workflow_of (getb bs o) else getb bs o in
+        let (g', ok) := insert_workflow (getb bs b) other (option_map (map tk) ps) in
+        (setb b g' bs, next, ok)
+    | OpPlus b o => (setb b (builder_plus (getb bs b) (getb bs o)) bs, next, true)
+    | OpSink b t => let g := getb bs b in (setb b (add_task g (tk t) (output_tasks g)) bs, next, true)
+    | OpCopy b => (setb b (workflow_of (workflow_of (getb bs b))) bs, next, true)
+    | OpCtx b => let (g', next') := insert_context_from (getb bs b) ctx next in (setb b g' bs, next', true)
+    | OpWPlus b o => (setb b (workflow_of (builder_plus (workflow_of (getb bs b)) (workflow_of (getb bs o)))) bs, next, true)
+    | OpSinkTo b t => let g := getb bs b in
+                      (setb b (add_task g (tk t) (filter (fun x => negb (task_eqb x (tk t))) (output_tasks g))) bs, next, true)
     end.
 
-  (* returns the final builders and the indices of the operations that raised *)
-  Fixpoint run_ops (i : nat) (ops : list op) (st : list tgraph) : list tgraph * list nat :=
+  (* returns the final builders, the counter and the indices of the operations that raised *)
+  Fixpoint run_ops (i : nat) (ops : list op) (st : list tgraph * positive) : list tgraph * positive * list nat :=
     match ops with
     | [] => (st, [])
-    | o :: tl => let (st', ok) := step st o in
+    | o :: tl => let '(st', ok) := step st o in
                  let (stf, errs) := run_ops (S i) tl st' in
                  (stf, if ok then errs else i :: errs)
     end.
@@ -70,7 +77,7 @@ Fixpoint index_of (t : task) (l : list task) : nat :=
   match l with [] => 0 | x :: tl => if task_eqb t x then 0 else S (index_of t tl) end.
 
 Definition obs_of (g : tgraph) : list onode :=
-  map (fun t => (tid t, negb (tgen t =? 0), tinputs t,
+  map (fun t => (tid t, negb (Pos.eqb (tuid t) (tid t)), tinputs t,
                  map (fun s => index_of s (nodes g)) (succ g t),
                  map (fun p => index_of p (nodes g)) (pred g t))) (nodes g).
 
@@ -108,7 +115,7 @@ Definition odsk_eqb (a b : option dsk) : bool :=
   match a, b with Some x, Some y => dsk_eqb x y | None, None => true | _, _ => false end.
 
 Record case := mkCase {
-  c_tasks : list task;          (* the task table T; tid = position + 1, generation 0 *)
+  c_tasks : list task;          (* the task table T; tid = tuid = position + 1 *)
   c_nb : nat;                   (* number of builders *)
   c_ops : list op;
   c_ctx : sval;
@@ -121,7 +128,9 @@ Record case := mkCase {
   c_keys : list positive;       (* its as_dask_dict(): keys in dict order ('results' = 1) *)
   c_dict : option dsk;          (*                    : the dict, None = ValueError *)
   c_result : result;            (* execute_workflow(wf, dispatcher=local_dask threaded, context=ctx) *)
-  c_log : list event            (* calls of the task functions during that execution *)
+  c_log : list event;           (* calls of the task functions during that execution *)
+  c_alt : list (result * nat)   (* the same workflow's as_dask_dict() run by other schedulers (synchronous dask.get,
+                                   threaded with 1 worker, threaded with 8 workers): result, number of calls *)
 }.
 
 (* the pure test family: f(args...) returns (marker of f, args...) *)
@@ -135,18 +144,19 @@ Definition tag (b : bool) (t : nat) : list nat := if b then [] else [t].
 (* ---- the declared workflow, rebuilt from the implementation's own Workflow object ------------ *)
 (* nodes in the order of wf.tasks, predecessor lists in that same order ("the order in which those
    predecessor tasks entered the workflow"), the context prepended where the function asks for it.
-   The i-th node gets generation i so that all nodes are different. *)
+   The i-th node gets identity i + 1 so that all nodes are different. *)
 Fixpoint enum_from {X} (i : nat) (l : list X) : list (nat * X) :=
   match l with [] => [] | x :: tl => (i, x) :: enum_from (S i) tl end.
 
 Definition declared (tasks : list task) (ctx : sval) (obs : list onode) : tgraph :=
   let mk (p : nat * onode) : task :=
       let t := nth (Pos.to_nat (o_tid (snd p)) - 1) tasks dummy_task in
-      mkTask (tid t) (fst p) (tfun t) (if tctx t then ctx :: o_inputs (snd p) else o_inputs (snd p)) (tctx t) in
+      mkTask (tid t) (Pos.of_succ_nat (fst p)) (tfun t) (if tctx t then ctx :: o_inputs (snd p) else o_inputs (snd p)) (tctx t) in
   let ns := map mk (enum_from 0 obs) in
-  let osucc (t : task) : list nat := o_succ (nth (tgen t) obs (1%positive, false, [], [], [])) in
+  let posn (t : task) : nat := Pos.to_nat (tuid t) - 1 in
+  let osucc (t : task) : list nat := o_succ (nth (posn t) obs (1%positive, false, [], [], [])) in
   mkG ns (fun t => map (fun i => nth i ns dummy_task) (osucc t))
-         (fun t => filter (fun u => memn (tgen t) (osucc u)) ns).
+         (fun t => filter (fun u => memn (posn t) (osucc u)) ns).
 
 Definition edge_tids (obs : list onode) : list (positive * positive) :=
   let tid_at (i : nat) := o_tid (nth i obs (1%positive, false, [], [], [])) in
@@ -175,13 +185,14 @@ Definition pred_key_positions (d : dsk) (n : nat) (v : sval) : list nat :=
   end.
 
 Definition verdict (c : case) : list nat :=
-  let (st, errs) := run_ops (c_tasks c) (c_ctx c) 0 (c_ops c) (repeat g_empty (c_nb c)) in
+  let '(st, next, errs) := run_ops (c_tasks c) (c_ctx c) 0 (c_ops c)
+                                   (repeat g_empty (c_nb c), Pos.of_succ_nat (length (c_tasks c))) in
   let gb := getb st 0 in
   let wf := workflow_of gb in
-  let prep := exec_prepare wf (c_ctx c) in
+  let prep := exec_prepare wf (c_ctx c) next in
   let ids := ids_of prep (c_keys c) in
   let md := as_dask_dict prep ids in
-  let (mres, mlog) := execute_log fam_apply wf (c_ctx c) ids in
+  let (mres, mlog) := execute_log fam_apply wf (c_ctx c) next ids in
   let decl := declared (c_tasks c) (c_ctx c) (c_wf c) in
   (* correspondence *)
   tag (list_eqb Nat.eqb errs (c_errs c)) 1 ++
@@ -209,10 +220,11 @@ Definition verdict (c : case) : list nat :=
                    && (length d =? length (c_prep c))
        | None => true
        end) 15 ++
+  tag (forallb (fun rn => result_eqb (fst rn) (c_result c) && (snd rn =? length (c_log c))) (c_alt c)) 16 ++
   (* guards *)
   tag (g_static_nokey prep ids) 201 ++
   tag (g_static_nocall prep) 202 ++
-  tag (g_ctx_order wf) 203 ++
+  tag (g_ctx_order wf) 203 ++          (* informational since /repo 4400919: not a guard any more *)
   tag (match output_tasks wf with [_] => true | _ => false end) 204 ++
   tag (length (topo_order wf) =? length (nodes wf)) 205 ++
   tag (g_keys_fresh prep ids) 206.
